@@ -5,6 +5,7 @@
 From Coq Require Import ZArith List Bool.
 From Coq.Strings Require Import Byte.
 From Verif Require Import Lib.Bytes Lib.BitRegroup Model.ChangeBase Crypto.Sha256.
+From Verif Require Gen.GenConsts.
 Import ListNotations.
 Open Scope Z_scope.
 
@@ -100,6 +101,37 @@ Section Bip39.
         end
     end.
 
+  (* ---------------- the non-default switches ----------------
+     to_mnemonic(data, add_checksum, check_on_curve) (l.144-153):
+       data = to_bytes(data); data_int = int.from_bytes(data, 'big')
+       if check_on_curve and not 0 < data_int < secp256k1_n: raise ValueError
+       add_checksum:      as lib_to_indices
+       not add_checksum:  wi = change_base(data_int, 10, 2048, len(data) // 1.375 + len(data) % 1.375 > 0)
+     The last argument is the comparison (a // 1.375 + a % 1.375) > 0, a bool: True exactly when data is not empty.
+     change_base with an int input and min_length True (= 1): minimal base-2048 digits, padded to one digit;
+     min_length False (= 0) with base_from 10 raises.  secp256k1_n is the constant regenerated from
+     bitcoinlib/config/secp256k1.py (Gen/GenConsts.v). *)
+  Definition lib_cb_10_2048 (n : Z) (minlen : bool) : option (list Z) :=
+    if minlen then Some (pad_left 1 (digits 2048 n)) else None.
+
+  Definition on_curve_ok (n : Z) : bool := (0 <? n) && (n <? GenConsts.secp256k1_n).
+
+  Definition lib_to_indices_opt (add_checksum check_on_curve : bool) (data0 : bytes) : option (list Z) :=
+    let data := lib_to_bytes data0 in
+    let n := of_be data in
+    if check_on_curve && negb (on_curve_ok n) then None
+    else if add_checksum then lib_to_indices data0
+    else lib_cb_10_2048 n (negb (Nat.eqb (length data) 0)).
+
+  (* to_entropy(words, includes_checksum) after the word lookup: without the checksum the result is the first
+     change_base alone (l.176-177, 187) *)
+  Definition lib_to_entropy_opt (includes_checksum : bool) (wi : list Z) : option bytes :=
+    if includes_checksum then lib_to_entropy wi
+    else match wi with
+         | [] => None
+         | _ => Some (map zb (lib_cb_2048_256 wi (4 * length wi / 3)))
+         end.
+
   (* ---------------- word lookup over an abstract word list ---------------- *)
   Section Words.
     Variable W : Type.
@@ -130,8 +162,88 @@ Section Bip39.
 
     Definition lib_entropy_of_words (wl : list W) (ws : list W) : option bytes :=
       match indices_of ws wl with Some idx => lib_to_entropy idx | None => None end.
+
+    Definition lib_entropy_of_words_opt (wl : list W) (flag : bool) (ws : list W) : option bytes :=
+      match indices_of ws wl with Some idx => lib_to_entropy_opt flag idx | None => None end.
   End Words.
 End Bip39.
+
+(* ---------------- language detection and sanitising (l.189-241) ----------------
+   A sentence is the list of the words of its NFKD form split at single spaces (the harness supplies it).
+   [pos k w] is the position of word w in word list number k ([None]: not in that list); [order] is the order in
+   which Path(wordlist).iterdir() yields the lists (file-system dependent, supplied by the harness).
+
+   detect_language: wlcount[language] = number of words of the sentence (with multiplicity) found in that list;
+     detlang = max(wlcount.keys(), key=wlcount.get)   -- the FIRST key in insertion order with the largest count
+     if not wlcount[detlang]: raise Warning
+   sanitize_mnemonic: language = detect_language(words); every word must be in THAT list; returns ' '.join(words)
+   to_entropy: words = sanitize_mnemonic(words); wi = [self._wordlist.index(word) ...]  -- the OBJECT's list *)
+Section Detect.
+  Variable W : Type.
+  Variable pos : nat -> W -> option Z.
+
+  Definition known (k : nat) (w : W) : bool := match pos k w with Some _ => true | None => false end.
+  Definition count_in (k : nat) (ws : list W) : nat := length (filter (known k) ws).
+
+  Fixpoint first_max (order : list nat) (ws : list W) : option nat :=
+    match order with
+    | [] => None
+    | k :: r =>
+        match first_max r ws with
+        | Some j => if (count_in k ws <? count_in j ws)%nat then Some j else Some k
+        | None => Some k
+        end
+    end.
+
+  Definition lib_detect (order : list nat) (ws : list W) : option nat :=
+    match first_max order ws with
+    | Some k => if Nat.eqb (count_in k ws) 0 then None else Some k
+    | None => None
+    end.
+
+  Definition lib_sanitize (order : list nat) (ws : list W) : option (list W) :=
+    match lib_detect order ws with
+    | Some k => if forallb (known k) ws then Some ws else None
+    | None => None
+    end.
+
+  Fixpoint lookup_all (self : nat) (ws : list W) : option (list Z) :=
+    match ws with
+    | [] => Some []
+    | w :: r =>
+        match pos self w, lookup_all self r with
+        | Some i, Some t => Some (i :: t)
+        | _, _ => None
+        end
+    end.
+
+  (* sanitize, look the words up in the object's own list, then f *)
+  Definition lib_obj_apply {A : Type} (order : list nat) (self : nat) (f : list Z -> option A) (ws : list W)
+    : option A :=
+    match lib_sanitize order ws with
+    | Some ws' => match lookup_all self ws' with Some wi => f wi | None => None end
+    | None => None
+    end.
+
+  (* Mnemonic(lang_self).to_entropy(sentence, includes_checksum) *)
+  Definition lib_entropy_obj (H : bytes -> bytes) (order : list nat) (self : nat) (flag : bool) (ws : list W)
+    : option bytes :=
+    lib_obj_apply order self (lib_to_entropy_opt H flag) ws.
+
+  (* does Mnemonic(lang_self).to_seed(sentence, password, validate) reach PBKDF2 *)
+  Definition lib_seed_accepts (H : bytes -> bytes) (order : list nat) (self : nat) (validate : bool) (ws : list W)
+    : bool :=
+    match lib_sanitize order ws with
+    | Some ws' =>
+        if validate then match lib_entropy_obj H order self true ws' with Some _ => true | None => false end
+        else true
+    | None => false
+    end.
+End Detect.
+
+(* the positions when the word lists are given as lists *)
+Definition pos_of_lists (W : Type) (weqb : W -> W -> bool) (langs : list (list W)) (k : nat) (w : W) : option Z :=
+  index_of W weqb w (nth k langs []).
 
 (* ---------------- seed ----------------
    Mnemonic.to_seed(words, password, validate=True) (l.81-88), with the C14-1 repair (password NFKD-normalised):
@@ -168,6 +280,19 @@ Section Seed.
     | Some (p, s) => Some (KDF p s 2048 64)
     | None => None
     end.
+
+  (* to_seed(words, password, validate): sanitize_mnemonic always runs; to_entropy only when validate *)
+  Variable sanitizes : str -> bool.
+  Definition lib_seed_query_v (validate : bool) (sentence password : str) : option (bytes * bytes) :=
+    let words := NFKD sentence in
+    if sanitizes words && (negb validate || accepts words)
+    then Some (utf8 words, mnemonic_salt ++ utf8 (NFKD password)) else None.
+
+  Definition lib_to_seed_v (validate : bool) (sentence password : str) : option bytes :=
+    match lib_seed_query_v validate sentence password with
+    | Some (p, s) => Some (KDF p s 2048 64)
+    | None => None
+    end.
 End Seed.
 
 (* the 16 bytes of the ASCII text "0123456789abcdef": the refutation witness for the hexlike guard *)
@@ -188,3 +313,55 @@ Definition lib_entropy_of_words_sha (ws : list Z) : option bytes :=
 Definition ostr := (bytes * bytes)%type.
 Definition lib_seed_query_x (sentence password : ostr) (ok : bool) : option (bytes * bytes) :=
   lib_seed_query ostr (fun s => (snd s, snd s)) fst (fun _ => ok) sentence password.
+
+(* ---------------- executable instances of the switches, detection and sessions ----------------
+   A word is its PROFILE: its position in each of the bundled word lists (in the order of Gen/GenWordlists.v,
+   -1 when absent), computed by the harness from the frozen lists in corpus/C14 (Proofs/Bip39Frozen.v proves that
+   the regenerated lists equal the frozen ones). *)
+Definition lib_to_indices_opt_sha := lib_to_indices_opt sha256.
+Definition lib_to_entropy_opt_sha := lib_to_entropy_opt sha256.
+
+Definition prof_pos (k : nat) (w : list Z) : option Z :=
+  match nth_error w k with
+  | Some p => if p <? 0 then None else Some p
+  | None => None
+  end.
+
+Definition lib_detect_x (order : list nat) (ws : list (list Z)) : option nat := lib_detect (list Z) prof_pos order ws.
+Definition lib_sanitize_x (order : list nat) (ws : list (list Z)) : bool :=
+  match lib_sanitize (list Z) prof_pos order ws with Some _ => true | None => false end.
+Definition lib_entropy_obj_x (order : list nat) (self : nat) (flag : bool) (ws : list (list Z)) : option bytes :=
+  lib_entropy_obj (list Z) prof_pos sha256 order self flag ws.
+Definition lib_seed_query_vx (order : list nat) (self : nat) (validate : bool) (ws : list (list Z))
+  (sentence password : ostr) : option (bytes * bytes) :=
+  lib_seed_query_v ostr (fun s => (snd s, snd s)) fst
+    (fun _ => lib_seed_accepts (list Z) prof_pos sha256 order self true ws)
+    (fun _ => lib_sanitize_x order ws) validate sentence password.
+
+(* one call of the public API and its answer; the library keeps nothing between calls, so a session (several
+   calls in one process, on one object) is answered call by call *)
+Inductive mreq : Type :=
+| RqMnemonic (add_checksum check_on_curve : bool) (data : bytes)
+| RqEntropy (order : list nat) (self : nat) (includes_checksum : bool) (ws : list (list Z))
+| RqSeed (order : list nat) (self : nat) (validate : bool) (ws : list (list Z)) (sentence password : ostr)
+| RqDetect (order : list nat) (ws : list (list Z))
+| RqSanitize (order : list nat) (ws : list (list Z)).
+
+Inductive mres : Type :=
+| RsIdx (l : list Z)
+| RsBytes (b : bytes)
+| RsQuery (p s : bytes)
+| RsLang (k : nat)
+| RsOk
+| RsErr.
+
+Definition answer (r : mreq) : mres :=
+  match r with
+  | RqMnemonic a c d => match lib_to_indices_opt_sha a c d with Some l => RsIdx l | None => RsErr end
+  | RqEntropy o s f ws => match lib_entropy_obj_x o s f ws with Some b => RsBytes b | None => RsErr end
+  | RqSeed o s v ws sn pw => match lib_seed_query_vx o s v ws sn pw with Some (p, q) => RsQuery p q | None => RsErr end
+  | RqDetect o ws => match lib_detect_x o ws with Some k => RsLang k | None => RsErr end
+  | RqSanitize o ws => if lib_sanitize_x o ws then RsOk else RsErr
+  end.
+
+Definition run_session (rs : list mreq) : list mres := map answer rs.
